@@ -11,7 +11,7 @@ From Coq Require Import List Bool.
 From DV Require Import Base.QcInst Model.TransformState Model.TransformStateRun Model.TransformStateEx
   Gen.TState Model.TransformCfg
   Proofs.C09Fresh Proofs.C09Replace Proofs.C09Regrid Proofs.C09Refuted Proofs.C09Skeleton
-  Proofs.C09Wf Proofs.C09Seq Proofs.C09History.
+  Proofs.C09Wf Proofs.C09Seq Proofs.C09SeqDirect Proofs.C09History.
 Import ListNotations.
 
 (* 0. the state-affecting statements of the anchored methods are the ones the model was written for *)
@@ -139,6 +139,74 @@ Proof.
 Qed.
 Print Assumptions C09_regrid_preserves_world_after_any_history.
 
+(* 8. Direct access to a composite: after any history, disp()/tensor()/forward() of a
+      SequentialTransform (no __call__, so no update hook) right after clear_buffers() on the COMPOSITE
+      returns, member by member, what each member holds -- the composite forwards the invalidation to
+      its members (non-rigid members of any parameter kind, linear members holding a tensor). *)
+Theorem C09_composite_direct_access_after_clear :
+  forall (P G C : Type) p0 emptyP zeroP fillP regrid callP fits geq same_dom spline_ok ffd_sub
+         (h : list (op P G C)) (o : nat) ob (l : list (tag P G)) (gout : option G),
+  let s := run P G C p0 emptyP zeroP fillP regrid callP fits geq same_dom spline_ok ffd_sub gen_cfg (empty_state P G C) h in
+  get_obj P G C s o = Some ob -> o_kind P G C ob = KSeq ->
+  Forall (direct_member s) (o_members P G C ob) ->
+  let s1 := fst (step P G C p0 emptyP zeroP fillP regrid callP fits geq same_dom spline_ok ffd_sub gen_cfg s (Clear P G C o)) in
+  snd (step P G C p0 emptyP zeroP fillP regrid callP fits geq same_dom spline_ok ffd_sub gen_cfg s1 (Disp P G C o)) = Out P G l gout ->
+  Forall2 (fun t m => held P G C p0 callP s1 m = Some t) l (o_members P G C ob).
+Proof.
+  exact (fun P G C p0 emptyP zeroP fillP regrid callP fits geq same_dom spline_ok ffd_sub =>
+           composite_direct_history p0 emptyP zeroP fillP regrid callP fits geq same_dom spline_ok ffd_sub gen_cfg gen_cfg_all).
+Qed.
+Print Assumptions C09_composite_direct_access_after_clear.
+
+(* ... and in general: in every well-formed state in which each member's buffered field is absent or
+   equal to what the member holds (`ready`), direct access to the composite is fresh *)
+Theorem C09_composite_direct_access :
+  forall (P G C : Type) (p0 : P) (callP : nat -> option C -> P) (fits : kind -> P -> G -> bool) (spline_ok : G -> bool)
+         (s : state P G C) o ob l s',
+  wf s -> get_obj P G C s o = Some ob -> o_kind P G C ob = KSeq ->
+  Forall (plain s) (o_members P G C ob) -> Forall (ready p0 callP s s) (o_members P G C ob) ->
+  forward P G C p0 callP fits spline_ok gen_cfg s o = Ok l s' ->
+  Forall2 (fun t m => held P G C p0 callP s m = Some t) l (o_members P G C ob).
+Proof.
+  exact (fun P G C p0 callP fits spline_ok =>
+           composite_direct_fresh p0 (fun _ _ => p0) (fun x => x) (fun x _ => x) (fun _ x _ _ => x) callP fits
+             (fun _ _ => true) (fun _ _ => true) spline_ok (fun _ _ => None) gen_cfg gen_cfg_all).
+Qed.
+Print Assumptions C09_composite_direct_access.
+
+(* 9. A linear transform holding a tensor or Parameter is read fresh in every state (tensor() involves
+      no buffer); together with 2 and 3 this settles every class x parameter kind for direct access:
+      only linear + callable (3) and linked transforms (buffered by design) read a buffer *)
+Theorem C09_linear_tensor_direct :
+  forall (P G C : Type) (p0 : P) (callP : nat -> option C -> P) (fits : kind -> P -> G -> bool) (spline_ok : G -> bool)
+         (s : state P G C) o ob r ip l s',
+  get_obj P G C s o = Some ob -> o_kind P G C ob = KLin -> get_params P G C s ob = Some (VTen r ip) ->
+  forward P G C p0 callP fits spline_ok gen_cfg s o = Ok l s' ->
+  exists t, l = [t] /\ held P G C p0 callP s o = Some t.
+Proof.
+  exact (fun P G C p0 callP fits spline_ok =>
+           linear_tensor_direct p0 callP fits spline_ok gen_cfg).
+Qed.
+Print Assumptions C09_linear_tensor_direct.
+
+(* 10. B-spline models: grid_ with a subdivided control grid installs the new grid and the subdivided
+       coefficients, after any history (the numerical exactness of the subdivision masks is C14) *)
+Theorem C09_spline_regrid_preserves_world_after_any_history :
+  forall (P G C : Type) p0 emptyP zeroP fillP regrid callP fits geq same_dom spline_ok ffd_sub
+         (W : Type) (world : P -> G -> W) (h : list (op P G C)) o g s1 ob r ip,
+  let s := run P G C p0 emptyP zeroP fillP regrid callP fits geq same_dom spline_ok ffd_sub gen_cfg (empty_state P G C) h in
+  (forall k p a b, world (regrid k p a b) b = world p a) ->
+  get_obj P G C s o = Some ob -> is_spline (o_kind P G C ob) = true ->
+  get_params P G C s ob = Some (VTen r ip) ->
+  ffd_sub (o_grid P G C ob) g = Some true ->
+  grid_set P G C p0 regrid fits geq spline_ok ffd_sub gen_cfg s o g = Ok tt s1 ->
+  exists p', holds p0 s1 o p' g /\ world p' g = world (tval P G C p0 s r) (o_grid P G C ob).
+Proof.
+  exact (fun P G C p0 emptyP zeroP fillP regrid callP fits geq same_dom spline_ok ffd_sub =>
+           spline_regrid_history p0 emptyP zeroP fillP regrid callP fits geq same_dom spline_ok ffd_sub gen_cfg gen_cfg_all).
+Qed.
+Print Assumptions C09_spline_regrid_preserves_world_after_any_history.
+
 (* non-vacuity: the hypotheses of 1, 2 and 4 are met by concrete reachable states of the executable
    instance, and the conclusions are observed there (including the two repaired cases: a B-spline model
    with callable parameters after grid_, a dense model moved to a grid differing only in align_corners) *)
@@ -147,8 +215,9 @@ Example C09_nonvacuous :
   fresh_after gen_cfg h_disp_ten x_data (Disp PV nat CV 0) 0 = true /\
   fresh_after gen_cfg h_ffd_fun (GridSet PV nat CV 0 2) x_obs 0 = true /\
   world_kept gen_cfg h_disp_ten 0 2 = true /\ world_kept gen_cfg h_disp_ten 0 1 = true /\
-  seq_fresh_after gen_cfg h_seq 2 = true.
+  seq_fresh_after gen_cfg h_seq 2 = true /\
+  (seq_direct_fresh_after gen_cfg h_seq_direct 2 = true /\ seq_direct_fresh_after gen_cfg h_seq_direct_noclear 2 = false).
 Proof.
   exact (conj nonrigid_callable_fresh_after_condition (conj dense_fresh_after_data (conj spline_callable_fresh_after_grid
-          (conj dense_grid_other_lattice_keeps_world (conj dense_grid_align_only_keeps_world composite_call_fresh_witness))))).
+          (conj dense_grid_other_lattice_keeps_world (conj dense_grid_align_only_keeps_world (conj composite_call_fresh_witness composite_direct_witness)))))).
 Qed.
